@@ -87,7 +87,11 @@ def run(rep, tier, seed, replay):
         rep.stats["language-differs"] += 1
         if lib.nontrivial(exprs[k]):
             rep.distinct.add(exprs[k])
-        classify(rep, exprs[k], w, impl_match, frag[k], corr.get(k, False), mline == "1", finding_ids)
+        # a model request that ran out of time says nothing: the emitted regex TEXT being equal is then the reproduction
+        model_match = impl_match if mline not in ("0", "1") else (mline == "1")
+        if mline not in ("0", "1"):
+            rep.stats["model membership undecided in time (text correspondence used)"] += 1
+        classify(rep, exprs[k], w, impl_match, frag[k], corr.get(k, False), model_match, finding_ids)
     # validation of the regex assumption: matchB on the emitted text vs the regex crate
     rx = [(k, w) for k, w, _ in diffs[:200]]
     # listed witnesses, replayed on the real code
